@@ -10,7 +10,7 @@ import time
 import z3
 
 from .program import Program, Unsupported
-from .state import (PAYLOAD_VT, VT, Alloc, CatchFrame, Concretize, FnPtrV, Frame, PathEnd, Ptr, State)
+from .state import (PAYLOAD_VT, VT, Alloc, CatchFrame, Concretize, FnPtrV, Frame, PathEnd, Ptr, State, ThreadFrame)
 
 M64 = (1 << 64) - 1
 
@@ -1000,6 +1000,13 @@ class Interp(object):
     def finish_call(self, st, dest, target, ret_blob):
         """control returns to the frame now on top (a Frame or a CatchFrame)"""
         top = st.frames[-1]
+        if isinstance(top, ThreadFrame):
+            st.frames.pop()
+            st.thread = top.prev_thread
+            if top.target is None:
+                raise PathEnd("engine-error", "on_thread without target")
+            self.goto(st, top.target)
+            return
         if isinstance(top, CatchFrame):
             cf = top
             st.frames.pop()
@@ -1034,6 +1041,9 @@ class Interp(object):
             if not st.frames:
                 raise PathEnd("unwound")
             fr = st.frames[-1]
+            if isinstance(fr, ThreadFrame):
+                # a panic ends the other thread; the spawner observes it at join (not modelled further)
+                raise PathEnd("unwound", "panic escaped a modelled second thread")
             if isinstance(fr, CatchFrame):
                 if fr.phase == "try":
                     fr.phase = "catch"
